@@ -484,12 +484,17 @@ def run(ctx, res, families=None, config="all", check_table=True):
         if os.path.exists(tp):
             with open(tp) as fh:
                 table = json.load(fh)
-            known = set(table["leaves"])
+            # an impl is identified by `<impl Trait<Args> for Self>::method`, not by the module it is written in
+            def impl_key(path):
+                i = path.find("<impl ")
+                return path[i:] if i >= 0 else path
+
+            known = {impl_key(x) for x in table["leaves"]}
             for b in ops:
                 fam = family_of(b)
                 if families and fam not in families:
                     continue
-                if classes[b.path]["kind"] == "leaf" and b.path not in known:
+                if classes[b.path]["kind"] == "leaf" and impl_key(b.path) not in known:
                     findings.append(
                         Finding(
                             "R2-unclassified-leaf",
